@@ -1,0 +1,800 @@
+//go:build verif
+
+package sql
+
+// --- con-c15b begin (C15: VARCHAR / BLOB key order, UNBOUNDED in maxLen)
+//
+// Replaces the bounded stand-ins verif_varchar_key_order_bounded / verif_blob_key_order_bounded (maxLen <= 8) of
+// zz_verif_contracts.go: for EVERY 0 < maxLen <= MaxKeyLen and all payloads p, q with len <= maxLen
+//     SQL order of (p, q) [bytes.Compare, see (*Varchar).Compare / (*Blob).Compare] < 0  <=>  key(p) <lex key(q)
+//     p == q  <=>  key(p), key(q) identical
+// where key = the result of the REAL EncodeRawValueAsKey (its layout contract: tag byte, payload, zero padding up to
+// maxLen, be32(len); proved unbounded by con-c15). Lexicographic order is characterised by the FIRST DIFFERING INDEX.
+//
+// Part 1 (witness lemmas): the first differing index d of the payloads / the first non-NUL index e of the longer
+// payload behind the shorter one / the first differing index kd of the keys are harness PARAMETERS (logical variables,
+// arbitrary). Forward: *_diff, *_prefix_nonnul, *_prefix_nul (this one is "a" vs "a\x00": the padded parts are equal
+// and the length suffix decides), *_equal. Converse (key order => payload order, identical keys => equal payloads):
+// *_converse. p / q are the two payloads, r0 / r1 their keys.
+//
+// Part 2 (end to end, further down): the same statement over an executable reference comparison verifLexCmp
+// (= bytes.Compare) whose first differing index is computed by a loop with a proved contract.
+
+//@ func verif_blob_key_order_diff
+//@   requires env: 64 <= MaxKeyLen && MaxKeyLen <= 65535
+//@   requires lens: 0 < maxLen && maxLen <= MaxKeyLen && len(p) <= maxLen && len(q) <= maxLen
+//@   requires wit: 0 <= d && d < len(p) && d < len(q) && forall(k, 0, d, p[k] == q[k]) && p[d] < q[d]
+//@   ensures shape: len(r0) == 1+maxLen+4 && len(r1) == 1+maxLen+4
+//@   ensures prefix: forall(k, 0, 1+d, r0[k] == r1[k])
+//@   ensures less: r0[1+d] < r1[1+d]
+func verif_blob_key_order_diff(p, q []byte, maxLen, d int) ([]byte, []byte) {
+	ep, _, _ := EncodeRawValueAsKey(p, BLOBType, maxLen)
+	eq, _, _ := EncodeRawValueAsKey(q, BLOBType, maxLen)
+	return ep, eq
+}
+
+//@ func verif_blob_key_order_prefix_nonnul
+//@   requires env: 64 <= MaxKeyLen && MaxKeyLen <= 65535
+//@   requires lens: 0 < maxLen && maxLen <= MaxKeyLen && len(p) <= maxLen && len(q) <= maxLen
+//@   requires wit: len(p) < len(q) && forall(k, 0, len(p), p[k] == q[k])
+//@   requires first: len(p) <= e && e < len(q) && forall(k, len(p), e, q[k] == 0) && q[e] != 0
+//@   ensures shape: len(r0) == 1+maxLen+4 && len(r1) == 1+maxLen+4
+//@   ensures prefix: forall(k, 0, 1+e, r0[k] == r1[k])
+//@   ensures less: r0[1+e] < r1[1+e]
+func verif_blob_key_order_prefix_nonnul(p, q []byte, maxLen, e int) ([]byte, []byte) {
+	ep, _, _ := EncodeRawValueAsKey(p, BLOBType, maxLen)
+	eq, _, _ := EncodeRawValueAsKey(q, BLOBType, maxLen)
+	return ep, eq
+}
+
+//@ func verif_blob_key_order_prefix_nul
+//@   requires env: 64 <= MaxKeyLen && MaxKeyLen <= 65535
+//@   requires lens: 0 < maxLen && maxLen <= MaxKeyLen && len(p) <= maxLen && len(q) <= maxLen
+//@   requires wit: len(p) < len(q) && forall(k, 0, len(p), p[k] == q[k])
+//@   requires nul: forall(k, len(p), len(q), q[k] == 0)
+//@   ensures shape: len(r0) == 1+maxLen+4 && len(r1) == 1+maxLen+4
+//@   ensures prefix: forall(k, 0, 1+maxLen, r0[k] == r1[k])
+//@   ensures suffix: be32(r0[1+maxLen:]) < be32(r1[1+maxLen:])
+//@   ensures less: r0[1+maxLen] < r1[1+maxLen]
+//@     || (r0[1+maxLen] == r1[1+maxLen] && r0[2+maxLen] < r1[2+maxLen])
+//@     || (r0[1+maxLen] == r1[1+maxLen] && r0[2+maxLen] == r1[2+maxLen] && r0[3+maxLen] < r1[3+maxLen])
+//@     || (r0[1+maxLen] == r1[1+maxLen] && r0[2+maxLen] == r1[2+maxLen] && r0[3+maxLen] == r1[3+maxLen] && r0[4+maxLen] < r1[4+maxLen])
+func verif_blob_key_order_prefix_nul(p, q []byte, maxLen int) ([]byte, []byte) {
+	ep, _, _ := EncodeRawValueAsKey(p, BLOBType, maxLen)
+	eq, _, _ := EncodeRawValueAsKey(q, BLOBType, maxLen)
+	return ep, eq
+}
+
+//@ func verif_blob_key_order_equal
+//@   requires env: 64 <= MaxKeyLen && MaxKeyLen <= 65535
+//@   requires lens: 0 < maxLen && maxLen <= MaxKeyLen && len(p) <= maxLen && len(q) <= maxLen
+//@   requires same: len(p) == len(q) && forall(k, 0, len(p), p[k] == q[k])
+//@   ensures shape: len(r0) == 1+maxLen+4 && len(r1) == 1+maxLen+4
+//@   ensures equal_body: forall(k, 0, 1+maxLen, r0[k] == r1[k])
+//@   ensures equal_suffix: r0[1+maxLen] == r1[1+maxLen] && r0[2+maxLen] == r1[2+maxLen] && r0[3+maxLen] == r1[3+maxLen] && r0[4+maxLen] == r1[4+maxLen]
+func verif_blob_key_order_equal(p, q []byte, maxLen int) ([]byte, []byte) {
+	ep, _, _ := EncodeRawValueAsKey(p, BLOBType, maxLen)
+	eq, _, _ := EncodeRawValueAsKey(q, BLOBType, maxLen)
+	return ep, eq
+}
+
+//@ func verif_blob_key_order_converse
+//@   requires env: 64 <= MaxKeyLen && MaxKeyLen <= 65535
+//@   requires lens: 0 < maxLen && maxLen <= MaxKeyLen && len(p) <= maxLen && len(q) <= maxLen
+//@   ensures shape: len(r0) == 1+maxLen+4 && len(r1) == 1+maxLen+4 && r0[0] == r1[0]
+//@   ensures key_lt_both: 1 <= kd && kd < 1+maxLen && forall(k, 0, kd, r0[k] == r1[k]) && r0[kd] < r1[kd] && kd-1 < len(p) && kd-1 < len(q)
+//@     ==> forall(k, 0, kd-1, p[k] == q[k]) && p[kd-1] < q[kd-1]
+//@   ensures key_lt_past_p: 1 <= kd && kd < 1+maxLen && forall(k, 0, kd, r0[k] == r1[k]) && r0[kd] < r1[kd] && len(p) <= kd-1
+//@     ==> len(p) < len(q) && forall(k, 0, len(p), p[k] == q[k])
+//@   ensures key_lt_past_q: 1 <= kd && kd < 1+maxLen && forall(k, 0, kd, r0[k] == r1[k]) && r0[kd] < r1[kd] ==> kd-1 < len(q)
+//@   ensures key_lt_suffix: forall(k, 0, 1+maxLen, r0[k] == r1[k]) && (r0[1+maxLen] < r1[1+maxLen]
+//@     || (r0[1+maxLen] == r1[1+maxLen] && r0[2+maxLen] < r1[2+maxLen])
+//@     || (r0[1+maxLen] == r1[1+maxLen] && r0[2+maxLen] == r1[2+maxLen] && r0[3+maxLen] < r1[3+maxLen])
+//@     || (r0[1+maxLen] == r1[1+maxLen] && r0[2+maxLen] == r1[2+maxLen] && r0[3+maxLen] == r1[3+maxLen] && r0[4+maxLen] < r1[4+maxLen]))
+//@     ==> len(p) < len(q) && forall(k, 0, len(p), p[k] == q[k])
+//@   ensures key_eq: forall(k, 0, 1+maxLen, r0[k] == r1[k])
+//@     && r0[1+maxLen] == r1[1+maxLen] && r0[2+maxLen] == r1[2+maxLen] && r0[3+maxLen] == r1[3+maxLen] && r0[4+maxLen] == r1[4+maxLen]
+//@     ==> len(p) == len(q) && forall(k, 0, len(p), p[k] == q[k])
+func verif_blob_key_order_converse(p, q []byte, maxLen, kd int) ([]byte, []byte) {
+	ep, _, _ := EncodeRawValueAsKey(p, BLOBType, maxLen)
+	eq, _, _ := EncodeRawValueAsKey(q, BLOBType, maxLen)
+	return ep, eq
+}
+
+//@ func verif_varchar_key_order_diff
+//@   requires env: 64 <= MaxKeyLen && MaxKeyLen <= 65535
+//@   requires lens: 0 < maxLen && maxLen <= MaxKeyLen && len(p) <= maxLen && len(q) <= maxLen
+//@   requires wit: 0 <= d && d < len(p) && d < len(q) && forall(k, 0, d, p[k] == q[k]) && p[d] < q[d]
+//@   ensures shape: len(r0) == 1+maxLen+4 && len(r1) == 1+maxLen+4
+//@   ensures prefix: forall(k, 0, 1+d, r0[k] == r1[k])
+//@   ensures less: r0[1+d] < r1[1+d]
+func verif_varchar_key_order_diff(p, q string, maxLen, d int) ([]byte, []byte) {
+	ep, _, _ := EncodeRawValueAsKey(p, VarcharType, maxLen)
+	eq, _, _ := EncodeRawValueAsKey(q, VarcharType, maxLen)
+	return ep, eq
+}
+
+//@ func verif_varchar_key_order_prefix_nonnul
+//@   requires env: 64 <= MaxKeyLen && MaxKeyLen <= 65535
+//@   requires lens: 0 < maxLen && maxLen <= MaxKeyLen && len(p) <= maxLen && len(q) <= maxLen
+//@   requires wit: len(p) < len(q) && forall(k, 0, len(p), p[k] == q[k])
+//@   requires first: len(p) <= e && e < len(q) && forall(k, len(p), e, q[k] == 0) && q[e] != 0
+//@   ensures shape: len(r0) == 1+maxLen+4 && len(r1) == 1+maxLen+4
+//@   ensures prefix: forall(k, 0, 1+e, r0[k] == r1[k])
+//@   ensures less: r0[1+e] < r1[1+e]
+func verif_varchar_key_order_prefix_nonnul(p, q string, maxLen, e int) ([]byte, []byte) {
+	ep, _, _ := EncodeRawValueAsKey(p, VarcharType, maxLen)
+	eq, _, _ := EncodeRawValueAsKey(q, VarcharType, maxLen)
+	return ep, eq
+}
+
+//@ func verif_varchar_key_order_prefix_nul
+//@   requires env: 64 <= MaxKeyLen && MaxKeyLen <= 65535
+//@   requires lens: 0 < maxLen && maxLen <= MaxKeyLen && len(p) <= maxLen && len(q) <= maxLen
+//@   requires wit: len(p) < len(q) && forall(k, 0, len(p), p[k] == q[k])
+//@   requires nul: forall(k, len(p), len(q), q[k] == 0)
+//@   ensures shape: len(r0) == 1+maxLen+4 && len(r1) == 1+maxLen+4
+//@   ensures prefix: forall(k, 0, 1+maxLen, r0[k] == r1[k])
+//@   ensures suffix: be32(r0[1+maxLen:]) < be32(r1[1+maxLen:])
+//@   ensures less: r0[1+maxLen] < r1[1+maxLen]
+//@     || (r0[1+maxLen] == r1[1+maxLen] && r0[2+maxLen] < r1[2+maxLen])
+//@     || (r0[1+maxLen] == r1[1+maxLen] && r0[2+maxLen] == r1[2+maxLen] && r0[3+maxLen] < r1[3+maxLen])
+//@     || (r0[1+maxLen] == r1[1+maxLen] && r0[2+maxLen] == r1[2+maxLen] && r0[3+maxLen] == r1[3+maxLen] && r0[4+maxLen] < r1[4+maxLen])
+func verif_varchar_key_order_prefix_nul(p, q string, maxLen int) ([]byte, []byte) {
+	ep, _, _ := EncodeRawValueAsKey(p, VarcharType, maxLen)
+	eq, _, _ := EncodeRawValueAsKey(q, VarcharType, maxLen)
+	return ep, eq
+}
+
+//@ func verif_varchar_key_order_equal
+//@   requires env: 64 <= MaxKeyLen && MaxKeyLen <= 65535
+//@   requires lens: 0 < maxLen && maxLen <= MaxKeyLen && len(p) <= maxLen && len(q) <= maxLen
+//@   requires same: len(p) == len(q) && forall(k, 0, len(p), p[k] == q[k])
+//@   ensures shape: len(r0) == 1+maxLen+4 && len(r1) == 1+maxLen+4
+//@   ensures equal_body: forall(k, 0, 1+maxLen, r0[k] == r1[k])
+//@   ensures equal_suffix: r0[1+maxLen] == r1[1+maxLen] && r0[2+maxLen] == r1[2+maxLen] && r0[3+maxLen] == r1[3+maxLen] && r0[4+maxLen] == r1[4+maxLen]
+func verif_varchar_key_order_equal(p, q string, maxLen int) ([]byte, []byte) {
+	ep, _, _ := EncodeRawValueAsKey(p, VarcharType, maxLen)
+	eq, _, _ := EncodeRawValueAsKey(q, VarcharType, maxLen)
+	return ep, eq
+}
+
+//@ func verif_varchar_key_order_converse
+//@   requires env: 64 <= MaxKeyLen && MaxKeyLen <= 65535
+//@   requires lens: 0 < maxLen && maxLen <= MaxKeyLen && len(p) <= maxLen && len(q) <= maxLen
+//@   ensures shape: len(r0) == 1+maxLen+4 && len(r1) == 1+maxLen+4 && r0[0] == r1[0]
+//@   ensures key_lt_both: 1 <= kd && kd < 1+maxLen && forall(k, 0, kd, r0[k] == r1[k]) && r0[kd] < r1[kd] && kd-1 < len(p) && kd-1 < len(q)
+//@     ==> forall(k, 0, kd-1, p[k] == q[k]) && p[kd-1] < q[kd-1]
+//@   ensures key_lt_past_p: 1 <= kd && kd < 1+maxLen && forall(k, 0, kd, r0[k] == r1[k]) && r0[kd] < r1[kd] && len(p) <= kd-1
+//@     ==> len(p) < len(q) && forall(k, 0, len(p), p[k] == q[k])
+//@   ensures key_lt_past_q: 1 <= kd && kd < 1+maxLen && forall(k, 0, kd, r0[k] == r1[k]) && r0[kd] < r1[kd] ==> kd-1 < len(q)
+//@   ensures key_lt_suffix: forall(k, 0, 1+maxLen, r0[k] == r1[k]) && (r0[1+maxLen] < r1[1+maxLen]
+//@     || (r0[1+maxLen] == r1[1+maxLen] && r0[2+maxLen] < r1[2+maxLen])
+//@     || (r0[1+maxLen] == r1[1+maxLen] && r0[2+maxLen] == r1[2+maxLen] && r0[3+maxLen] < r1[3+maxLen])
+//@     || (r0[1+maxLen] == r1[1+maxLen] && r0[2+maxLen] == r1[2+maxLen] && r0[3+maxLen] == r1[3+maxLen] && r0[4+maxLen] < r1[4+maxLen]))
+//@     ==> len(p) < len(q) && forall(k, 0, len(p), p[k] == q[k])
+//@   ensures key_eq: forall(k, 0, 1+maxLen, r0[k] == r1[k])
+//@     && r0[1+maxLen] == r1[1+maxLen] && r0[2+maxLen] == r1[2+maxLen] && r0[3+maxLen] == r1[3+maxLen] && r0[4+maxLen] == r1[4+maxLen]
+//@     ==> len(p) == len(q) && forall(k, 0, len(p), p[k] == q[k])
+func verif_varchar_key_order_converse(p, q string, maxLen, kd int) ([]byte, []byte) {
+	ep, _, _ := EncodeRawValueAsKey(p, VarcharType, maxLen)
+	eq, _, _ := EncodeRawValueAsKey(q, VarcharType, maxLen)
+	return ep, eq
+}
+
+// ---------------------------------------------------------------------------------------------------------
+// End-to-end statement over an EXECUTABLE reference of the lexicographic comparison (= bytes.Compare):
+// verifLexCmp(a, b) = verifCmpAt(a, b, verifFirstDiff(a, b)). The first differing index is computed by a loop whose
+// contract (first index at which the strings differ or one of them ends) is PROVED (loop invariant), so the
+// least-number principle is not a meta-level assumption here.
+
+//@ func verifFirstDiff
+//@   ensures range: 0 <= r0 && r0 <= len(a) && r0 <= len(b)
+//@   ensures same: forall(k, 0, r0, a[k] == b[k])
+//@   ensures diff: r0 < len(a) && r0 < len(b) ==> a[r0] != b[r0]
+//@   assigns nothing
+//@   loop 1 invariant range: 0 <= i && i <= len(a) && i <= len(b)
+//@   loop 1 invariant same: forall(k, 0, i, a[k] == b[k])
+//@   loop 1 decreases len(a) - i
+func verifFirstDiff(a, b []byte) int {
+	i := 0
+	for i < len(a) && i < len(b) && a[i] == b[i] {
+		i++
+	}
+	return i
+}
+
+//@ func verifFirstNonZero
+//@   requires from: 0 <= from && from <= len(a)
+//@   ensures range: from <= r0 && r0 <= len(a)
+//@   ensures zero: forall(k, from, r0, a[k] == 0)
+//@   ensures nonzero: r0 < len(a) ==> a[r0] != 0
+//@   assigns nothing
+//@   loop 1 invariant range: from <= i && i <= len(a)
+//@   loop 1 invariant zero: forall(k, from, i, a[k] == 0)
+//@   loop 1 decreases len(a) - i
+func verifFirstNonZero(a []byte, from int) int {
+	i := from
+	for i < len(a) && a[i] == 0 {
+		i++
+	}
+	return i
+}
+
+//@ func verifFirstDiffStr
+//@   ensures range: 0 <= r0 && r0 <= len(a) && r0 <= len(b)
+//@   ensures same: forall(k, 0, r0, a[k] == b[k])
+//@   ensures diff: r0 < len(a) && r0 < len(b) ==> a[r0] != b[r0]
+//@   assigns nothing
+//@   loop 1 invariant range: 0 <= i && i <= len(a) && i <= len(b)
+//@   loop 1 invariant same: forall(k, 0, i, a[k] == b[k])
+//@   loop 1 decreases len(a) - i
+func verifFirstDiffStr(a, b string) int {
+	i := 0
+	for i < len(a) && i < len(b) && a[i] == b[i] {
+		i++
+	}
+	return i
+}
+
+//@ func verifFirstNonZeroStr
+//@   requires from: 0 <= from && from <= len(a)
+//@   ensures range: from <= r0 && r0 <= len(a)
+//@   ensures zero: forall(k, from, r0, a[k] == 0)
+//@   ensures nonzero: r0 < len(a) ==> a[r0] != 0
+//@   assigns nothing
+//@   loop 1 invariant range: from <= i && i <= len(a)
+//@   loop 1 invariant zero: forall(k, from, i, a[k] == 0)
+//@   loop 1 decreases len(a) - i
+func verifFirstNonZeroStr(a string, from int) int {
+	i := from
+	for i < len(a) && a[i] == 0 {
+		i++
+	}
+	return i
+}
+
+// three-way lexicographic comparison of a and b given their first differing index d
+func verifCmpAt(a, b []byte, d int) int {
+	if d < len(a) && d < len(b) {
+		if a[d] < b[d] {
+			return -1
+		}
+		if a[d] > b[d] {
+			return 1
+		}
+		return 0
+	}
+	if len(a) < len(b) {
+		return -1
+	}
+	if len(a) > len(b) {
+		return 1
+	}
+	return 0
+}
+
+func verifCmpAtStr(a, b string, d int) int {
+	if d < len(a) && d < len(b) {
+		if a[d] < b[d] {
+			return -1
+		}
+		if a[d] > b[d] {
+			return 1
+		}
+		return 0
+	}
+	if len(a) < len(b) {
+		return -1
+	}
+	if len(a) > len(b) {
+		return 1
+	}
+	return 0
+}
+
+// reference implementations (what bytes.Compare computes); used by the replay test, not by the proofs
+func verifLexCmp(a, b []byte) int    { return verifCmpAt(a, b, verifFirstDiff(a, b)) }
+func verifLexCmpStr(a, b string) int { return verifCmpAtStr(a, b, verifFirstDiffStr(a, b)) }
+
+// case: the payloads differ at dp inside both
+func verif_blob_key_order_unb_diff(p, q []byte, maxLen int) {
+	verifAssume(0 < maxLen && maxLen <= MaxKeyLen && len(p) <= maxLen && len(q) <= maxLen)
+	verifEnv()
+	ep, _, errp := EncodeRawValueAsKey(p, BLOBType, maxLen)
+	eq, _, errq := EncodeRawValueAsKey(q, BLOBType, maxLen)
+	verifAssert("enc_ok", errp == nil && errq == nil && len(ep) == 1+maxLen+4 && len(eq) == 1+maxLen+4)
+	dp := verifFirstDiff(p, q)    // first differing index of the payloads
+	ez := verifFirstNonZero(q, dp) // first non-NUL index of q at or after dp (meaningful when p is a proper prefix of q)
+	ey := verifFirstNonZero(p, dp) // first non-NUL index of p at or after dp (meaningful when q is a proper prefix of p)
+	dk := verifFirstDiff(ep, eq)   // first differing index of the keys
+	cp, ck := verifCmpAt(p, q, dp), verifCmpAt(ep, eq, dk)
+	_, _ = ez, ey
+	verifAssume(dp < len(p) && dp < len(q))
+	// stepping stones: layout of both keys at the first differing key index dk (index term dk-1 made explicit)
+	verifAssert("tag", ep[0] == eq[0] && dk >= 1)
+	verifAssert("lay_p_dk", !(dk-1 < len(p)) || ep[dk] == p[dk-1])
+	verifAssert("lay_q_dk", !(dk-1 < len(q)) || eq[dk] == q[dk-1])
+	verifAssert("pad_p_dk", !(len(p) <= dk-1 && dk < 1+maxLen) || ep[dk] == 0)
+	verifAssert("pad_q_dk", !(len(q) <= dk-1 && dk < 1+maxLen) || eq[dk] == 0)
+	verifAssert("same_dk", !(dk-1 < dp) || p[dk-1] == q[dk-1])
+	// the case
+	verifAssert("lay", ep[1+dp] == p[dp] && eq[1+dp] == q[dp])
+	verifAssert("le", dk <= 1+dp)
+	verifAssert("ge", dk >= 1+dp)
+	verifAssert("bytes", ep[dk] == p[dp] && eq[dk] == q[dp] && p[dp] != q[dp])
+	verifAssert("case_order", (cp < 0) == (ck < 0) && cp != 0 && ck != 0)
+	// the statement: SQL order of the payloads (bytes.Compare) = byte order of the keys, equal payloads <=> identical keys
+	verifAssert("order", (cp < 0) == (ck < 0))
+	verifAssert("equal", (cp == 0) == (ck == 0))
+	verifAssert("identical", (cp == 0) == (dk == len(ep) && dk == len(eq)))
+}
+
+// case: p is a proper prefix of q and q has a non-NUL byte after len(p), the first one at ez
+func verif_blob_key_order_unb_p_prefix_nonnul(p, q []byte, maxLen int) {
+	verifAssume(0 < maxLen && maxLen <= MaxKeyLen && len(p) <= maxLen && len(q) <= maxLen)
+	verifEnv()
+	ep, _, errp := EncodeRawValueAsKey(p, BLOBType, maxLen)
+	eq, _, errq := EncodeRawValueAsKey(q, BLOBType, maxLen)
+	verifAssert("enc_ok", errp == nil && errq == nil && len(ep) == 1+maxLen+4 && len(eq) == 1+maxLen+4)
+	dp := verifFirstDiff(p, q)    // first differing index of the payloads
+	ez := verifFirstNonZero(q, dp) // first non-NUL index of q at or after dp (meaningful when p is a proper prefix of q)
+	ey := verifFirstNonZero(p, dp) // first non-NUL index of p at or after dp (meaningful when q is a proper prefix of p)
+	dk := verifFirstDiff(ep, eq)   // first differing index of the keys
+	cp, ck := verifCmpAt(p, q, dp), verifCmpAt(ep, eq, dk)
+	_, _ = ez, ey
+	verifAssume(dp == len(p) && dp < len(q) && ez < len(q))
+	// stepping stones: layout of both keys at the first differing key index dk (index term dk-1 made explicit)
+	verifAssert("tag", ep[0] == eq[0] && dk >= 1)
+	verifAssert("lay_p_dk", !(dk-1 < len(p)) || ep[dk] == p[dk-1])
+	verifAssert("lay_q_dk", !(dk-1 < len(q)) || eq[dk] == q[dk-1])
+	verifAssert("pad_p_dk", !(len(p) <= dk-1 && dk < 1+maxLen) || ep[dk] == 0)
+	verifAssert("pad_q_dk", !(len(q) <= dk-1 && dk < 1+maxLen) || eq[dk] == 0)
+	verifAssert("same_dk", !(dk-1 < dp) || p[dk-1] == q[dk-1])
+	// the case
+	verifAssert("lay", ep[1+ez] == 0 && eq[1+ez] == q[ez])
+	verifAssert("le", dk <= 1+ez)
+	verifAssert("zero_dk", !(len(p) <= dk-1 && dk-1 < ez) || q[dk-1] == 0)
+	verifAssert("ge", dk >= 1+ez)
+	verifAssert("case_order", cp < 0 && ck < 0)
+	// the statement: SQL order of the payloads (bytes.Compare) = byte order of the keys, equal payloads <=> identical keys
+	verifAssert("order", (cp < 0) == (ck < 0))
+	verifAssert("equal", (cp == 0) == (ck == 0))
+	verifAssert("identical", (cp == 0) == (dk == len(ep) && dk == len(eq)))
+}
+
+// case: p is a proper prefix of q and the rest of q is all NUL (e.g. "a" vs "a\x00"): decided by the length suffix
+func verif_blob_key_order_unb_p_prefix_nul(p, q []byte, maxLen int) {
+	verifAssume(0 < maxLen && maxLen <= MaxKeyLen && len(p) <= maxLen && len(q) <= maxLen)
+	verifEnv()
+	ep, _, errp := EncodeRawValueAsKey(p, BLOBType, maxLen)
+	eq, _, errq := EncodeRawValueAsKey(q, BLOBType, maxLen)
+	verifAssert("enc_ok", errp == nil && errq == nil && len(ep) == 1+maxLen+4 && len(eq) == 1+maxLen+4)
+	dp := verifFirstDiff(p, q)    // first differing index of the payloads
+	ez := verifFirstNonZero(q, dp) // first non-NUL index of q at or after dp (meaningful when p is a proper prefix of q)
+	ey := verifFirstNonZero(p, dp) // first non-NUL index of p at or after dp (meaningful when q is a proper prefix of p)
+	dk := verifFirstDiff(ep, eq)   // first differing index of the keys
+	cp, ck := verifCmpAt(p, q, dp), verifCmpAt(ep, eq, dk)
+	_, _ = ez, ey
+	verifAssume(dp == len(p) && dp < len(q) && ez == len(q))
+	// stepping stones: layout of both keys at the first differing key index dk (index term dk-1 made explicit)
+	verifAssert("tag", ep[0] == eq[0] && dk >= 1)
+	verifAssert("lay_p_dk", !(dk-1 < len(p)) || ep[dk] == p[dk-1])
+	verifAssert("lay_q_dk", !(dk-1 < len(q)) || eq[dk] == q[dk-1])
+	verifAssert("pad_p_dk", !(len(p) <= dk-1 && dk < 1+maxLen) || ep[dk] == 0)
+	verifAssert("pad_q_dk", !(len(q) <= dk-1 && dk < 1+maxLen) || eq[dk] == 0)
+	verifAssert("same_dk", !(dk-1 < dp) || p[dk-1] == q[dk-1])
+	// the four bytes of the length suffix (len <= maxLen <= 65535: two zero bytes, then the length big-endian)
+	verifAssert("suf_p", ep[1+maxLen] == 0 && ep[2+maxLen] == 0 && ep[3+maxLen] == byte(len(p)>>8) && ep[4+maxLen] == byte(len(p)))
+	verifAssert("suf_q", eq[1+maxLen] == 0 && eq[2+maxLen] == 0 && eq[3+maxLen] == byte(len(q)>>8) && eq[4+maxLen] == byte(len(q)))
+	verifAssert("suf_dk_ne1", dk != 1+maxLen)
+	verifAssert("suf_dk_ne2", dk != 2+maxLen)
+	verifAssert("suf_dk", !(dk >= 1+maxLen) || dk >= 3+maxLen)
+	verifAssert("suf_dk_hi", !(dk == 3+maxLen) || byte(len(p)>>8) != byte(len(q)>>8))
+	verifAssert("suf_dk_lo", !(dk == 4+maxLen) || (byte(len(p)>>8) == byte(len(q)>>8) && byte(len(p)) != byte(len(q))))
+	verifAssert("suf_dk_end", !(dk == 5+maxLen) || len(p) == len(q))
+	// the case
+	verifAssert("zero_dk", !(len(p) <= dk-1 && dk-1 < ez) || q[dk-1] == 0)
+	verifAssert("ge", dk >= 1+maxLen)
+	verifAssert("lt", dk < 1+maxLen+4)
+	verifAssert("dk", dk == 3+maxLen || dk == 4+maxLen)
+	verifAssert("hi", !(dk == 3+maxLen) || byte(len(p)>>8) < byte(len(q)>>8))
+	verifAssert("lo", !(dk == 4+maxLen) || byte(len(p)) < byte(len(q)))
+	verifAssert("bytes_hi", !(dk == 3+maxLen) || ep[3+maxLen] < eq[3+maxLen])
+	verifAssert("bytes_lo", !(dk == 4+maxLen) || ep[4+maxLen] < eq[4+maxLen])
+	verifAssert("ck_hi", !(dk == 3+maxLen) || ck < 0)
+	verifAssert("ck_lo", !(dk == 4+maxLen) || ck < 0)
+	verifAssert("case_order", cp < 0 && ck < 0)
+	// the statement: SQL order of the payloads (bytes.Compare) = byte order of the keys, equal payloads <=> identical keys
+	verifAssert("order", (cp < 0) == (ck < 0))
+	verifAssert("equal", (cp == 0) == (ck == 0))
+	verifAssert("identical", (cp == 0) == (dk == len(ep) && dk == len(eq)))
+}
+
+// case: q is a proper prefix of p and p has a non-NUL byte after len(q), the first one at ey
+func verif_blob_key_order_unb_q_prefix_nonnul(p, q []byte, maxLen int) {
+	verifAssume(0 < maxLen && maxLen <= MaxKeyLen && len(p) <= maxLen && len(q) <= maxLen)
+	verifEnv()
+	ep, _, errp := EncodeRawValueAsKey(p, BLOBType, maxLen)
+	eq, _, errq := EncodeRawValueAsKey(q, BLOBType, maxLen)
+	verifAssert("enc_ok", errp == nil && errq == nil && len(ep) == 1+maxLen+4 && len(eq) == 1+maxLen+4)
+	dp := verifFirstDiff(p, q)    // first differing index of the payloads
+	ez := verifFirstNonZero(q, dp) // first non-NUL index of q at or after dp (meaningful when p is a proper prefix of q)
+	ey := verifFirstNonZero(p, dp) // first non-NUL index of p at or after dp (meaningful when q is a proper prefix of p)
+	dk := verifFirstDiff(ep, eq)   // first differing index of the keys
+	cp, ck := verifCmpAt(p, q, dp), verifCmpAt(ep, eq, dk)
+	_, _ = ez, ey
+	verifAssume(dp == len(q) && dp < len(p) && ey < len(p))
+	// stepping stones: layout of both keys at the first differing key index dk (index term dk-1 made explicit)
+	verifAssert("tag", ep[0] == eq[0] && dk >= 1)
+	verifAssert("lay_p_dk", !(dk-1 < len(p)) || ep[dk] == p[dk-1])
+	verifAssert("lay_q_dk", !(dk-1 < len(q)) || eq[dk] == q[dk-1])
+	verifAssert("pad_p_dk", !(len(p) <= dk-1 && dk < 1+maxLen) || ep[dk] == 0)
+	verifAssert("pad_q_dk", !(len(q) <= dk-1 && dk < 1+maxLen) || eq[dk] == 0)
+	verifAssert("same_dk", !(dk-1 < dp) || p[dk-1] == q[dk-1])
+	// the case
+	verifAssert("lay", eq[1+ey] == 0 && ep[1+ey] == p[ey])
+	verifAssert("le", dk <= 1+ey)
+	verifAssert("zero_dk", !(len(q) <= dk-1 && dk-1 < ey) || p[dk-1] == 0)
+	verifAssert("ge", dk >= 1+ey)
+	verifAssert("case_order", cp > 0 && ck > 0)
+	// the statement: SQL order of the payloads (bytes.Compare) = byte order of the keys, equal payloads <=> identical keys
+	verifAssert("order", (cp < 0) == (ck < 0))
+	verifAssert("equal", (cp == 0) == (ck == 0))
+	verifAssert("identical", (cp == 0) == (dk == len(ep) && dk == len(eq)))
+}
+
+// case: q is a proper prefix of p and the rest of p is all NUL: decided by the length suffix
+func verif_blob_key_order_unb_q_prefix_nul(p, q []byte, maxLen int) {
+	verifAssume(0 < maxLen && maxLen <= MaxKeyLen && len(p) <= maxLen && len(q) <= maxLen)
+	verifEnv()
+	ep, _, errp := EncodeRawValueAsKey(p, BLOBType, maxLen)
+	eq, _, errq := EncodeRawValueAsKey(q, BLOBType, maxLen)
+	verifAssert("enc_ok", errp == nil && errq == nil && len(ep) == 1+maxLen+4 && len(eq) == 1+maxLen+4)
+	dp := verifFirstDiff(p, q)    // first differing index of the payloads
+	ez := verifFirstNonZero(q, dp) // first non-NUL index of q at or after dp (meaningful when p is a proper prefix of q)
+	ey := verifFirstNonZero(p, dp) // first non-NUL index of p at or after dp (meaningful when q is a proper prefix of p)
+	dk := verifFirstDiff(ep, eq)   // first differing index of the keys
+	cp, ck := verifCmpAt(p, q, dp), verifCmpAt(ep, eq, dk)
+	_, _ = ez, ey
+	verifAssume(dp == len(q) && dp < len(p) && ey == len(p))
+	// stepping stones: layout of both keys at the first differing key index dk (index term dk-1 made explicit)
+	verifAssert("tag", ep[0] == eq[0] && dk >= 1)
+	verifAssert("lay_p_dk", !(dk-1 < len(p)) || ep[dk] == p[dk-1])
+	verifAssert("lay_q_dk", !(dk-1 < len(q)) || eq[dk] == q[dk-1])
+	verifAssert("pad_p_dk", !(len(p) <= dk-1 && dk < 1+maxLen) || ep[dk] == 0)
+	verifAssert("pad_q_dk", !(len(q) <= dk-1 && dk < 1+maxLen) || eq[dk] == 0)
+	verifAssert("same_dk", !(dk-1 < dp) || p[dk-1] == q[dk-1])
+	// the four bytes of the length suffix (len <= maxLen <= 65535: two zero bytes, then the length big-endian)
+	verifAssert("suf_p", ep[1+maxLen] == 0 && ep[2+maxLen] == 0 && ep[3+maxLen] == byte(len(p)>>8) && ep[4+maxLen] == byte(len(p)))
+	verifAssert("suf_q", eq[1+maxLen] == 0 && eq[2+maxLen] == 0 && eq[3+maxLen] == byte(len(q)>>8) && eq[4+maxLen] == byte(len(q)))
+	verifAssert("suf_dk_ne1", dk != 1+maxLen)
+	verifAssert("suf_dk_ne2", dk != 2+maxLen)
+	verifAssert("suf_dk", !(dk >= 1+maxLen) || dk >= 3+maxLen)
+	verifAssert("suf_dk_hi", !(dk == 3+maxLen) || byte(len(p)>>8) != byte(len(q)>>8))
+	verifAssert("suf_dk_lo", !(dk == 4+maxLen) || (byte(len(p)>>8) == byte(len(q)>>8) && byte(len(p)) != byte(len(q))))
+	verifAssert("suf_dk_end", !(dk == 5+maxLen) || len(p) == len(q))
+	// the case
+	verifAssert("zero_dk", !(len(q) <= dk-1 && dk-1 < ey) || p[dk-1] == 0)
+	verifAssert("ge", dk >= 1+maxLen)
+	verifAssert("lt", dk < 1+maxLen+4)
+	verifAssert("dk", dk == 3+maxLen || dk == 4+maxLen)
+	verifAssert("hi", !(dk == 3+maxLen) || byte(len(p)>>8) > byte(len(q)>>8))
+	verifAssert("lo", !(dk == 4+maxLen) || byte(len(p)) > byte(len(q)))
+	verifAssert("bytes_hi", !(dk == 3+maxLen) || ep[3+maxLen] > eq[3+maxLen])
+	verifAssert("bytes_lo", !(dk == 4+maxLen) || ep[4+maxLen] > eq[4+maxLen])
+	verifAssert("ck_hi", !(dk == 3+maxLen) || ck > 0)
+	verifAssert("ck_lo", !(dk == 4+maxLen) || ck > 0)
+	verifAssert("case_order", cp > 0 && ck > 0)
+	// the statement: SQL order of the payloads (bytes.Compare) = byte order of the keys, equal payloads <=> identical keys
+	verifAssert("order", (cp < 0) == (ck < 0))
+	verifAssert("equal", (cp == 0) == (ck == 0))
+	verifAssert("identical", (cp == 0) == (dk == len(ep) && dk == len(eq)))
+}
+
+// case: equal payloads
+func verif_blob_key_order_unb_same(p, q []byte, maxLen int) {
+	verifAssume(0 < maxLen && maxLen <= MaxKeyLen && len(p) <= maxLen && len(q) <= maxLen)
+	verifEnv()
+	ep, _, errp := EncodeRawValueAsKey(p, BLOBType, maxLen)
+	eq, _, errq := EncodeRawValueAsKey(q, BLOBType, maxLen)
+	verifAssert("enc_ok", errp == nil && errq == nil && len(ep) == 1+maxLen+4 && len(eq) == 1+maxLen+4)
+	dp := verifFirstDiff(p, q)    // first differing index of the payloads
+	ez := verifFirstNonZero(q, dp) // first non-NUL index of q at or after dp (meaningful when p is a proper prefix of q)
+	ey := verifFirstNonZero(p, dp) // first non-NUL index of p at or after dp (meaningful when q is a proper prefix of p)
+	dk := verifFirstDiff(ep, eq)   // first differing index of the keys
+	cp, ck := verifCmpAt(p, q, dp), verifCmpAt(ep, eq, dk)
+	_, _ = ez, ey
+	verifAssume(dp == len(p) && dp == len(q))
+	// stepping stones: layout of both keys at the first differing key index dk (index term dk-1 made explicit)
+	verifAssert("tag", ep[0] == eq[0] && dk >= 1)
+	verifAssert("lay_p_dk", !(dk-1 < len(p)) || ep[dk] == p[dk-1])
+	verifAssert("lay_q_dk", !(dk-1 < len(q)) || eq[dk] == q[dk-1])
+	verifAssert("pad_p_dk", !(len(p) <= dk-1 && dk < 1+maxLen) || ep[dk] == 0)
+	verifAssert("pad_q_dk", !(len(q) <= dk-1 && dk < 1+maxLen) || eq[dk] == 0)
+	verifAssert("same_dk", !(dk-1 < dp) || p[dk-1] == q[dk-1])
+	// the four bytes of the length suffix (len <= maxLen <= 65535: two zero bytes, then the length big-endian)
+	verifAssert("suf_p", ep[1+maxLen] == 0 && ep[2+maxLen] == 0 && ep[3+maxLen] == byte(len(p)>>8) && ep[4+maxLen] == byte(len(p)))
+	verifAssert("suf_q", eq[1+maxLen] == 0 && eq[2+maxLen] == 0 && eq[3+maxLen] == byte(len(q)>>8) && eq[4+maxLen] == byte(len(q)))
+	verifAssert("suf_dk_ne1", dk != 1+maxLen)
+	verifAssert("suf_dk_ne2", dk != 2+maxLen)
+	verifAssert("suf_dk", !(dk >= 1+maxLen) || dk >= 3+maxLen)
+	verifAssert("suf_dk_hi", !(dk == 3+maxLen) || byte(len(p)>>8) != byte(len(q)>>8))
+	verifAssert("suf_dk_lo", !(dk == 4+maxLen) || (byte(len(p)>>8) == byte(len(q)>>8) && byte(len(p)) != byte(len(q))))
+	verifAssert("suf_dk_end", !(dk == 5+maxLen) || len(p) == len(q))
+	// the case
+	verifAssert("ge", dk >= 1+maxLen)
+	verifAssert("ne3", dk != 3+maxLen)
+	verifAssert("ne4", dk != 4+maxLen)
+	verifAssert("eq", dk == 1+maxLen+4)
+	verifAssert("case_order", cp == 0 && ck == 0)
+	// the statement: SQL order of the payloads (bytes.Compare) = byte order of the keys, equal payloads <=> identical keys
+	verifAssert("order", (cp < 0) == (ck < 0))
+	verifAssert("equal", (cp == 0) == (ck == 0))
+	verifAssert("identical", (cp == 0) == (dk == len(ep) && dk == len(eq)))
+}
+
+// the six cases are exhaustive (for whatever values the index functions return within their contracts)
+func verif_blob_key_order_unb_cases(p, q []byte) {
+	dp := verifFirstDiff(p, q)
+	ez := verifFirstNonZero(q, dp)
+	ey := verifFirstNonZero(p, dp)
+	verifAssert("exhaustive", (dp < len(p) && dp < len(q)) ||
+		(dp == len(p) && dp < len(q) && ez < len(q)) ||
+		(dp == len(p) && dp < len(q) && ez == len(q)) ||
+		(dp == len(q) && dp < len(p) && ey < len(p)) ||
+		(dp == len(q) && dp < len(p) && ey == len(p)) ||
+		(dp == len(p) && dp == len(q)))
+}
+
+// case: the payloads differ at dp inside both
+func verif_varchar_key_order_unb_diff(p, q string, maxLen int) {
+	verifAssume(0 < maxLen && maxLen <= MaxKeyLen && len(p) <= maxLen && len(q) <= maxLen)
+	verifEnv()
+	ep, _, errp := EncodeRawValueAsKey(p, VarcharType, maxLen)
+	eq, _, errq := EncodeRawValueAsKey(q, VarcharType, maxLen)
+	verifAssert("enc_ok", errp == nil && errq == nil && len(ep) == 1+maxLen+4 && len(eq) == 1+maxLen+4)
+	dp := verifFirstDiffStr(p, q)    // first differing index of the payloads
+	ez := verifFirstNonZeroStr(q, dp) // first non-NUL index of q at or after dp (meaningful when p is a proper prefix of q)
+	ey := verifFirstNonZeroStr(p, dp) // first non-NUL index of p at or after dp (meaningful when q is a proper prefix of p)
+	dk := verifFirstDiff(ep, eq)   // first differing index of the keys
+	cp, ck := verifCmpAtStr(p, q, dp), verifCmpAt(ep, eq, dk)
+	_, _ = ez, ey
+	verifAssume(dp < len(p) && dp < len(q))
+	// stepping stones: layout of both keys at the first differing key index dk (index term dk-1 made explicit)
+	verifAssert("tag", ep[0] == eq[0] && dk >= 1)
+	verifAssert("lay_p_dk", !(dk-1 < len(p)) || ep[dk] == p[dk-1])
+	verifAssert("lay_q_dk", !(dk-1 < len(q)) || eq[dk] == q[dk-1])
+	verifAssert("pad_p_dk", !(len(p) <= dk-1 && dk < 1+maxLen) || ep[dk] == 0)
+	verifAssert("pad_q_dk", !(len(q) <= dk-1 && dk < 1+maxLen) || eq[dk] == 0)
+	verifAssert("same_dk", !(dk-1 < dp) || p[dk-1] == q[dk-1])
+	// the case
+	verifAssert("lay", ep[1+dp] == p[dp] && eq[1+dp] == q[dp])
+	verifAssert("le", dk <= 1+dp)
+	verifAssert("ge", dk >= 1+dp)
+	verifAssert("bytes", ep[dk] == p[dp] && eq[dk] == q[dp] && p[dp] != q[dp])
+	verifAssert("case_order", (cp < 0) == (ck < 0) && cp != 0 && ck != 0)
+	// the statement: SQL order of the payloads (bytes.Compare) = byte order of the keys, equal payloads <=> identical keys
+	verifAssert("order", (cp < 0) == (ck < 0))
+	verifAssert("equal", (cp == 0) == (ck == 0))
+	verifAssert("identical", (cp == 0) == (dk == len(ep) && dk == len(eq)))
+}
+
+// case: p is a proper prefix of q and q has a non-NUL byte after len(p), the first one at ez
+func verif_varchar_key_order_unb_p_prefix_nonnul(p, q string, maxLen int) {
+	verifAssume(0 < maxLen && maxLen <= MaxKeyLen && len(p) <= maxLen && len(q) <= maxLen)
+	verifEnv()
+	ep, _, errp := EncodeRawValueAsKey(p, VarcharType, maxLen)
+	eq, _, errq := EncodeRawValueAsKey(q, VarcharType, maxLen)
+	verifAssert("enc_ok", errp == nil && errq == nil && len(ep) == 1+maxLen+4 && len(eq) == 1+maxLen+4)
+	dp := verifFirstDiffStr(p, q)    // first differing index of the payloads
+	ez := verifFirstNonZeroStr(q, dp) // first non-NUL index of q at or after dp (meaningful when p is a proper prefix of q)
+	ey := verifFirstNonZeroStr(p, dp) // first non-NUL index of p at or after dp (meaningful when q is a proper prefix of p)
+	dk := verifFirstDiff(ep, eq)   // first differing index of the keys
+	cp, ck := verifCmpAtStr(p, q, dp), verifCmpAt(ep, eq, dk)
+	_, _ = ez, ey
+	verifAssume(dp == len(p) && dp < len(q) && ez < len(q))
+	// stepping stones: layout of both keys at the first differing key index dk (index term dk-1 made explicit)
+	verifAssert("tag", ep[0] == eq[0] && dk >= 1)
+	verifAssert("lay_p_dk", !(dk-1 < len(p)) || ep[dk] == p[dk-1])
+	verifAssert("lay_q_dk", !(dk-1 < len(q)) || eq[dk] == q[dk-1])
+	verifAssert("pad_p_dk", !(len(p) <= dk-1 && dk < 1+maxLen) || ep[dk] == 0)
+	verifAssert("pad_q_dk", !(len(q) <= dk-1 && dk < 1+maxLen) || eq[dk] == 0)
+	verifAssert("same_dk", !(dk-1 < dp) || p[dk-1] == q[dk-1])
+	// the case
+	verifAssert("lay", ep[1+ez] == 0 && eq[1+ez] == q[ez])
+	verifAssert("le", dk <= 1+ez)
+	verifAssert("zero_dk", !(len(p) <= dk-1 && dk-1 < ez) || q[dk-1] == 0)
+	verifAssert("ge", dk >= 1+ez)
+	verifAssert("case_order", cp < 0 && ck < 0)
+	// the statement: SQL order of the payloads (bytes.Compare) = byte order of the keys, equal payloads <=> identical keys
+	verifAssert("order", (cp < 0) == (ck < 0))
+	verifAssert("equal", (cp == 0) == (ck == 0))
+	verifAssert("identical", (cp == 0) == (dk == len(ep) && dk == len(eq)))
+}
+
+// case: p is a proper prefix of q and the rest of q is all NUL (e.g. "a" vs "a\x00"): decided by the length suffix
+func verif_varchar_key_order_unb_p_prefix_nul(p, q string, maxLen int) {
+	verifAssume(0 < maxLen && maxLen <= MaxKeyLen && len(p) <= maxLen && len(q) <= maxLen)
+	verifEnv()
+	ep, _, errp := EncodeRawValueAsKey(p, VarcharType, maxLen)
+	eq, _, errq := EncodeRawValueAsKey(q, VarcharType, maxLen)
+	verifAssert("enc_ok", errp == nil && errq == nil && len(ep) == 1+maxLen+4 && len(eq) == 1+maxLen+4)
+	dp := verifFirstDiffStr(p, q)    // first differing index of the payloads
+	ez := verifFirstNonZeroStr(q, dp) // first non-NUL index of q at or after dp (meaningful when p is a proper prefix of q)
+	ey := verifFirstNonZeroStr(p, dp) // first non-NUL index of p at or after dp (meaningful when q is a proper prefix of p)
+	dk := verifFirstDiff(ep, eq)   // first differing index of the keys
+	cp, ck := verifCmpAtStr(p, q, dp), verifCmpAt(ep, eq, dk)
+	_, _ = ez, ey
+	verifAssume(dp == len(p) && dp < len(q) && ez == len(q))
+	// stepping stones: layout of both keys at the first differing key index dk (index term dk-1 made explicit)
+	verifAssert("tag", ep[0] == eq[0] && dk >= 1)
+	verifAssert("lay_p_dk", !(dk-1 < len(p)) || ep[dk] == p[dk-1])
+	verifAssert("lay_q_dk", !(dk-1 < len(q)) || eq[dk] == q[dk-1])
+	verifAssert("pad_p_dk", !(len(p) <= dk-1 && dk < 1+maxLen) || ep[dk] == 0)
+	verifAssert("pad_q_dk", !(len(q) <= dk-1 && dk < 1+maxLen) || eq[dk] == 0)
+	verifAssert("same_dk", !(dk-1 < dp) || p[dk-1] == q[dk-1])
+	// the four bytes of the length suffix (len <= maxLen <= 65535: two zero bytes, then the length big-endian)
+	verifAssert("suf_p", ep[1+maxLen] == 0 && ep[2+maxLen] == 0 && ep[3+maxLen] == byte(len(p)>>8) && ep[4+maxLen] == byte(len(p)))
+	verifAssert("suf_q", eq[1+maxLen] == 0 && eq[2+maxLen] == 0 && eq[3+maxLen] == byte(len(q)>>8) && eq[4+maxLen] == byte(len(q)))
+	verifAssert("suf_dk_ne1", dk != 1+maxLen)
+	verifAssert("suf_dk_ne2", dk != 2+maxLen)
+	verifAssert("suf_dk", !(dk >= 1+maxLen) || dk >= 3+maxLen)
+	verifAssert("suf_dk_hi", !(dk == 3+maxLen) || byte(len(p)>>8) != byte(len(q)>>8))
+	verifAssert("suf_dk_lo", !(dk == 4+maxLen) || (byte(len(p)>>8) == byte(len(q)>>8) && byte(len(p)) != byte(len(q))))
+	verifAssert("suf_dk_end", !(dk == 5+maxLen) || len(p) == len(q))
+	// the case
+	verifAssert("zero_dk", !(len(p) <= dk-1 && dk-1 < ez) || q[dk-1] == 0)
+	verifAssert("ge", dk >= 1+maxLen)
+	verifAssert("lt", dk < 1+maxLen+4)
+	verifAssert("dk", dk == 3+maxLen || dk == 4+maxLen)
+	verifAssert("hi", !(dk == 3+maxLen) || byte(len(p)>>8) < byte(len(q)>>8))
+	verifAssert("lo", !(dk == 4+maxLen) || byte(len(p)) < byte(len(q)))
+	verifAssert("bytes_hi", !(dk == 3+maxLen) || ep[3+maxLen] < eq[3+maxLen])
+	verifAssert("bytes_lo", !(dk == 4+maxLen) || ep[4+maxLen] < eq[4+maxLen])
+	verifAssert("ck_hi", !(dk == 3+maxLen) || ck < 0)
+	verifAssert("ck_lo", !(dk == 4+maxLen) || ck < 0)
+	verifAssert("case_order", cp < 0 && ck < 0)
+	// the statement: SQL order of the payloads (bytes.Compare) = byte order of the keys, equal payloads <=> identical keys
+	verifAssert("order", (cp < 0) == (ck < 0))
+	verifAssert("equal", (cp == 0) == (ck == 0))
+	verifAssert("identical", (cp == 0) == (dk == len(ep) && dk == len(eq)))
+}
+
+// case: q is a proper prefix of p and p has a non-NUL byte after len(q), the first one at ey
+func verif_varchar_key_order_unb_q_prefix_nonnul(p, q string, maxLen int) {
+	verifAssume(0 < maxLen && maxLen <= MaxKeyLen && len(p) <= maxLen && len(q) <= maxLen)
+	verifEnv()
+	ep, _, errp := EncodeRawValueAsKey(p, VarcharType, maxLen)
+	eq, _, errq := EncodeRawValueAsKey(q, VarcharType, maxLen)
+	verifAssert("enc_ok", errp == nil && errq == nil && len(ep) == 1+maxLen+4 && len(eq) == 1+maxLen+4)
+	dp := verifFirstDiffStr(p, q)    // first differing index of the payloads
+	ez := verifFirstNonZeroStr(q, dp) // first non-NUL index of q at or after dp (meaningful when p is a proper prefix of q)
+	ey := verifFirstNonZeroStr(p, dp) // first non-NUL index of p at or after dp (meaningful when q is a proper prefix of p)
+	dk := verifFirstDiff(ep, eq)   // first differing index of the keys
+	cp, ck := verifCmpAtStr(p, q, dp), verifCmpAt(ep, eq, dk)
+	_, _ = ez, ey
+	verifAssume(dp == len(q) && dp < len(p) && ey < len(p))
+	// stepping stones: layout of both keys at the first differing key index dk (index term dk-1 made explicit)
+	verifAssert("tag", ep[0] == eq[0] && dk >= 1)
+	verifAssert("lay_p_dk", !(dk-1 < len(p)) || ep[dk] == p[dk-1])
+	verifAssert("lay_q_dk", !(dk-1 < len(q)) || eq[dk] == q[dk-1])
+	verifAssert("pad_p_dk", !(len(p) <= dk-1 && dk < 1+maxLen) || ep[dk] == 0)
+	verifAssert("pad_q_dk", !(len(q) <= dk-1 && dk < 1+maxLen) || eq[dk] == 0)
+	verifAssert("same_dk", !(dk-1 < dp) || p[dk-1] == q[dk-1])
+	// the case
+	verifAssert("lay", eq[1+ey] == 0 && ep[1+ey] == p[ey])
+	verifAssert("le", dk <= 1+ey)
+	verifAssert("zero_dk", !(len(q) <= dk-1 && dk-1 < ey) || p[dk-1] == 0)
+	verifAssert("ge", dk >= 1+ey)
+	verifAssert("case_order", cp > 0 && ck > 0)
+	// the statement: SQL order of the payloads (bytes.Compare) = byte order of the keys, equal payloads <=> identical keys
+	verifAssert("order", (cp < 0) == (ck < 0))
+	verifAssert("equal", (cp == 0) == (ck == 0))
+	verifAssert("identical", (cp == 0) == (dk == len(ep) && dk == len(eq)))
+}
+
+// case: q is a proper prefix of p and the rest of p is all NUL: decided by the length suffix
+func verif_varchar_key_order_unb_q_prefix_nul(p, q string, maxLen int) {
+	verifAssume(0 < maxLen && maxLen <= MaxKeyLen && len(p) <= maxLen && len(q) <= maxLen)
+	verifEnv()
+	ep, _, errp := EncodeRawValueAsKey(p, VarcharType, maxLen)
+	eq, _, errq := EncodeRawValueAsKey(q, VarcharType, maxLen)
+	verifAssert("enc_ok", errp == nil && errq == nil && len(ep) == 1+maxLen+4 && len(eq) == 1+maxLen+4)
+	dp := verifFirstDiffStr(p, q)    // first differing index of the payloads
+	ez := verifFirstNonZeroStr(q, dp) // first non-NUL index of q at or after dp (meaningful when p is a proper prefix of q)
+	ey := verifFirstNonZeroStr(p, dp) // first non-NUL index of p at or after dp (meaningful when q is a proper prefix of p)
+	dk := verifFirstDiff(ep, eq)   // first differing index of the keys
+	cp, ck := verifCmpAtStr(p, q, dp), verifCmpAt(ep, eq, dk)
+	_, _ = ez, ey
+	verifAssume(dp == len(q) && dp < len(p) && ey == len(p))
+	// stepping stones: layout of both keys at the first differing key index dk (index term dk-1 made explicit)
+	verifAssert("tag", ep[0] == eq[0] && dk >= 1)
+	verifAssert("lay_p_dk", !(dk-1 < len(p)) || ep[dk] == p[dk-1])
+	verifAssert("lay_q_dk", !(dk-1 < len(q)) || eq[dk] == q[dk-1])
+	verifAssert("pad_p_dk", !(len(p) <= dk-1 && dk < 1+maxLen) || ep[dk] == 0)
+	verifAssert("pad_q_dk", !(len(q) <= dk-1 && dk < 1+maxLen) || eq[dk] == 0)
+	verifAssert("same_dk", !(dk-1 < dp) || p[dk-1] == q[dk-1])
+	// the four bytes of the length suffix (len <= maxLen <= 65535: two zero bytes, then the length big-endian)
+	verifAssert("suf_p", ep[1+maxLen] == 0 && ep[2+maxLen] == 0 && ep[3+maxLen] == byte(len(p)>>8) && ep[4+maxLen] == byte(len(p)))
+	verifAssert("suf_q", eq[1+maxLen] == 0 && eq[2+maxLen] == 0 && eq[3+maxLen] == byte(len(q)>>8) && eq[4+maxLen] == byte(len(q)))
+	verifAssert("suf_dk_ne1", dk != 1+maxLen)
+	verifAssert("suf_dk_ne2", dk != 2+maxLen)
+	verifAssert("suf_dk", !(dk >= 1+maxLen) || dk >= 3+maxLen)
+	verifAssert("suf_dk_hi", !(dk == 3+maxLen) || byte(len(p)>>8) != byte(len(q)>>8))
+	verifAssert("suf_dk_lo", !(dk == 4+maxLen) || (byte(len(p)>>8) == byte(len(q)>>8) && byte(len(p)) != byte(len(q))))
+	verifAssert("suf_dk_end", !(dk == 5+maxLen) || len(p) == len(q))
+	// the case
+	verifAssert("zero_dk", !(len(q) <= dk-1 && dk-1 < ey) || p[dk-1] == 0)
+	verifAssert("ge", dk >= 1+maxLen)
+	verifAssert("lt", dk < 1+maxLen+4)
+	verifAssert("dk", dk == 3+maxLen || dk == 4+maxLen)
+	verifAssert("hi", !(dk == 3+maxLen) || byte(len(p)>>8) > byte(len(q)>>8))
+	verifAssert("lo", !(dk == 4+maxLen) || byte(len(p)) > byte(len(q)))
+	verifAssert("bytes_hi", !(dk == 3+maxLen) || ep[3+maxLen] > eq[3+maxLen])
+	verifAssert("bytes_lo", !(dk == 4+maxLen) || ep[4+maxLen] > eq[4+maxLen])
+	verifAssert("ck_hi", !(dk == 3+maxLen) || ck > 0)
+	verifAssert("ck_lo", !(dk == 4+maxLen) || ck > 0)
+	verifAssert("case_order", cp > 0 && ck > 0)
+	// the statement: SQL order of the payloads (bytes.Compare) = byte order of the keys, equal payloads <=> identical keys
+	verifAssert("order", (cp < 0) == (ck < 0))
+	verifAssert("equal", (cp == 0) == (ck == 0))
+	verifAssert("identical", (cp == 0) == (dk == len(ep) && dk == len(eq)))
+}
+
+// case: equal payloads
+func verif_varchar_key_order_unb_same(p, q string, maxLen int) {
+	verifAssume(0 < maxLen && maxLen <= MaxKeyLen && len(p) <= maxLen && len(q) <= maxLen)
+	verifEnv()
+	ep, _, errp := EncodeRawValueAsKey(p, VarcharType, maxLen)
+	eq, _, errq := EncodeRawValueAsKey(q, VarcharType, maxLen)
+	verifAssert("enc_ok", errp == nil && errq == nil && len(ep) == 1+maxLen+4 && len(eq) == 1+maxLen+4)
+	dp := verifFirstDiffStr(p, q)    // first differing index of the payloads
+	ez := verifFirstNonZeroStr(q, dp) // first non-NUL index of q at or after dp (meaningful when p is a proper prefix of q)
+	ey := verifFirstNonZeroStr(p, dp) // first non-NUL index of p at or after dp (meaningful when q is a proper prefix of p)
+	dk := verifFirstDiff(ep, eq)   // first differing index of the keys
+	cp, ck := verifCmpAtStr(p, q, dp), verifCmpAt(ep, eq, dk)
+	_, _ = ez, ey
+	verifAssume(dp == len(p) && dp == len(q))
+	// stepping stones: layout of both keys at the first differing key index dk (index term dk-1 made explicit)
+	verifAssert("tag", ep[0] == eq[0] && dk >= 1)
+	verifAssert("lay_p_dk", !(dk-1 < len(p)) || ep[dk] == p[dk-1])
+	verifAssert("lay_q_dk", !(dk-1 < len(q)) || eq[dk] == q[dk-1])
+	verifAssert("pad_p_dk", !(len(p) <= dk-1 && dk < 1+maxLen) || ep[dk] == 0)
+	verifAssert("pad_q_dk", !(len(q) <= dk-1 && dk < 1+maxLen) || eq[dk] == 0)
+	verifAssert("same_dk", !(dk-1 < dp) || p[dk-1] == q[dk-1])
+	// the four bytes of the length suffix (len <= maxLen <= 65535: two zero bytes, then the length big-endian)
+	verifAssert("suf_p", ep[1+maxLen] == 0 && ep[2+maxLen] == 0 && ep[3+maxLen] == byte(len(p)>>8) && ep[4+maxLen] == byte(len(p)))
+	verifAssert("suf_q", eq[1+maxLen] == 0 && eq[2+maxLen] == 0 && eq[3+maxLen] == byte(len(q)>>8) && eq[4+maxLen] == byte(len(q)))
+	verifAssert("suf_dk_ne1", dk != 1+maxLen)
+	verifAssert("suf_dk_ne2", dk != 2+maxLen)
+	verifAssert("suf_dk", !(dk >= 1+maxLen) || dk >= 3+maxLen)
+	verifAssert("suf_dk_hi", !(dk == 3+maxLen) || byte(len(p)>>8) != byte(len(q)>>8))
+	verifAssert("suf_dk_lo", !(dk == 4+maxLen) || (byte(len(p)>>8) == byte(len(q)>>8) && byte(len(p)) != byte(len(q))))
+	verifAssert("suf_dk_end", !(dk == 5+maxLen) || len(p) == len(q))
+	// the case
+	verifAssert("ge", dk >= 1+maxLen)
+	verifAssert("ne3", dk != 3+maxLen)
+	verifAssert("ne4", dk != 4+maxLen)
+	verifAssert("eq", dk == 1+maxLen+4)
+	verifAssert("case_order", cp == 0 && ck == 0)
+	// the statement: SQL order of the payloads (bytes.Compare) = byte order of the keys, equal payloads <=> identical keys
+	verifAssert("order", (cp < 0) == (ck < 0))
+	verifAssert("equal", (cp == 0) == (ck == 0))
+	verifAssert("identical", (cp == 0) == (dk == len(ep) && dk == len(eq)))
+}
+
+// the six cases are exhaustive (for whatever values the index functions return within their contracts)
+func verif_varchar_key_order_unb_cases(p, q string) {
+	dp := verifFirstDiffStr(p, q)
+	ez := verifFirstNonZeroStr(q, dp)
+	ey := verifFirstNonZeroStr(p, dp)
+	verifAssert("exhaustive", (dp < len(p) && dp < len(q)) ||
+		(dp == len(p) && dp < len(q) && ez < len(q)) ||
+		(dp == len(p) && dp < len(q) && ez == len(q)) ||
+		(dp == len(q) && dp < len(p) && ey < len(p)) ||
+		(dp == len(q) && dp < len(p) && ey == len(p)) ||
+		(dp == len(p) && dp == len(q)))
+}
+
+// --- con-c15b end
